@@ -3,15 +3,19 @@
 Every layer's teardown function removes the entry of the closed handle / bearer from the registry it owns and
 changes nothing else (frame).
 """
+import asyncio
+
+from bumble import gatt_client as _gatt_client
 from bumble import hci
 from bumble import host as _host
 from bumble import l2cap as _l2cap
+from pyvc import ext_c13
 from pyvc import ext_c16  # noqa: F401  (iteration over symbolic maps)
 from pyvc.ext_c16 import forall_keys
-from pyvc.contracts import (Any, Bool, Callback, Const, DequeOf, Event, Inst, Int, IntRange, ListOf, MapOf, OneOf, Opaque, Opt, TupleOf, contract,
+from pyvc.contracts import (Any, Bool, Callback, Const, DequeOf, EmptyDict, Event, Inst, Int, IntRange, ListOf, MapOf, OneOf, Opaque, Opt, TupleOf, contract,
                             forall, iff, implies, lemma, mget, mhas, model)
 
-from contracts.c16_env import CANCELLED, EXCEPTION, FUT, FUT_INLINE, PENDING, RESULT, fst, fut_released
+from contracts.c16_env import Fut, CANCELLED, EXCEPTION, FUT, FUT_INLINE, PENDING, RESULT, fst, fut_released
 
 ENVIRONMENT = []
 
@@ -792,3 +796,121 @@ contract(
     ensures_names=['no-session-for-the-closed-connection', 'other-sessions-kept'],
     modifies=['self.sessions'],
 )
+
+
+# ---------------------------------------------------------------------------
+# GATT server: an EATT bearer (an LE credit-based channel) -- who tells the server when it closes?
+# Device.on_disconnection hands only the ACL connection to Server.on_disconnection; for the channels accepted by
+# Server.register_eatt the server itself must listen to the channel's 'close' event.
+# ---------------------------------------------------------------------------
+def _sem_factory():
+    return 'semaphore'
+
+
+def _none_factory():
+    return None
+
+
+model(
+    'bumble.gatt_server:Server#c16e',
+    fields=dict(device=Inst('contracts.c16_env:RecDevice'), subscribers=EmptyDict(None), indication_semaphores=EmptyDict(_sem_factory), pending_confirmations=EmptyDict(_none_factory)),
+)
+
+
+def lemma_eatt_bearer_closed(server, channel):
+    server.register_eatt()
+    # the L2CAP server accepts a channel on the EATT PSM and hands it to the handler register_eatt gave it
+    server.device.handler(channel)
+    # the bearer acquires server state: a subscription row (CCCD write), a semaphore and a confirmation slot (indication)
+    server.subscribers[channel] = {}
+    server.indication_semaphores.setdefault(channel, 'semaphore')
+    server.pending_confirmations.setdefault(channel, None)
+    # the channel closes: an L2CAP disconnection, or the link is lost (ChannelManager.on_disconnection -> abort -> 'close')
+    channel.emit('close')
+    assert channel not in server.subscribers, 'eatt-subscriptions-dropped'
+    assert channel not in server.indication_semaphores and channel not in server.pending_confirmations, 'eatt-indication-state-dropped'
+
+
+lemma(
+    'eatt_bearer_closed',
+    lemma_eatt_bearer_closed,
+    prop='C16',
+    profile='skeleton',
+    params=dict(server=Inst('bumble.gatt_server:Server#c16e'), channel=Inst('contracts.c16_env:RecChannel')),
+    modifies=['*'],
+    inline=['Server.register_eatt', 'Server.on_disconnection', 'RecEmitter.*', 'RecChannel.*', 'RecDevice.*', 'LeCreditBasedChannelSpec.*'],
+    native_setup=lambda env: _native_server_dicts(env['server']),
+)
+
+
+def _native_server_dicts(s):
+    import asyncio
+    import collections
+
+    s.subscribers = {}
+    s.indication_semaphores = collections.defaultdict(lambda: asyncio.Semaphore(1))
+    s.pending_confirmations = collections.defaultdict(lambda: None)
+
+
+# ---------------------------------------------------------------------------
+# GATT client: Client.__init__ subscribes on_disconnection to the event that announces the end of its bearer
+# ---------------------------------------------------------------------------
+model('bumble.gatt_client:Client#c16new', fields={})
+model('ghost:AnySemaphore#c16', fields={})
+ext_c13.stub_class(asyncio.Semaphore, 'ghost:AnySemaphore#c16')  # Client.__init__ creates its request semaphore
+
+
+def lemma_gatt_client_listens(client, bearer, waiting_on):
+    """a client created on a bearer (ACL connection: 'disconnection'; EATT channel: 'close') has its request in flight
+    cancelled when the bearer announces its end"""
+    _gatt_client.Client.__init__(client, bearer)
+    client.pending_response = waiting_on
+    bearer.emit('close' if isinstance(bearer, _l2cap.LeCreditBasedChannel) else 'disconnection')
+    assert waiting_on.st == CANCELLED, 'request-in-flight-cancelled-when-the-bearer-ends'
+
+
+lemma(
+    'gatt_client_listens',
+    lemma_gatt_client_listens,
+    prop='C16',
+    params=dict(client=Inst('bumble.gatt_client:Client#c16new'), bearer=OneOf(Inst('contracts.c16_env:RecConnection'), Inst('contracts.c16_env:RecChannel')),
+                waiting_on=Inst('contracts.c16_env:Fut', st=Const(PENDING), guard=Const(0))),
+    modifies=['*'],
+    inline=['Client.__init__', 'Client.on_disconnection', 'RecEmitter.*', 'RecChannel.*', 'RecConnection.*', 'bumble.att:is_enhanced_bearer'] + FUT_INLINE,
+)
+
+
+# ---------------------------------------------------------------------------
+# who listens to the host's 'disconnection' / 'flush' events (the fan-out Host -> {Device, ChannelManager})
+# ---------------------------------------------------------------------------
+model('bumble.l2cap:ChannelManager#c16host', fields=dict(_host=Const(None)))
+
+
+def lemma_l2cap_manager_listens(manager, host):
+    """attaching a host to the L2CAP channel manager subscribes ChannelManager.on_disconnection to 'disconnection'"""
+    _l2cap.ChannelManager.host.fset(manager, host)
+    assert host.count('disconnection') == 1, 'listens-to-host-disconnection'
+    assert manager._host is host, 'host-attached'
+
+
+lemma(
+    'l2cap_manager_listens',
+    lemma_l2cap_manager_listens,
+    prop='C16',
+    params=dict(manager=Inst('bumble.l2cap:ChannelManager#c16host'), host=Inst('contracts.c16_env:RecEmitter')),
+    modifies=['*'],
+    inline=['ChannelManager.host', 'RecEmitter.*'],
+)
+
+
+def _device_listens():
+    """Device.host.setter subscribes `on_<name>` for every name in device_host_event_handlers (filled by the
+    @host_event_handler decorator at class creation): checked by reflection, a miss is a checker error"""
+    from bumble import device as _device
+
+    missing = [n for n in ('disconnection', 'flush') if n not in _device.device_host_event_handlers]
+    if missing:
+        raise AssertionError(f'C16: Device does not subscribe to the host events {missing}')
+
+
+_device_listens()
